@@ -51,16 +51,16 @@ theorem shiftPerm_step_down (i d j : Nat) :
   all_goals omega
 
 section Abs
-variable {P : Mgr → Prop} {R : Mgr → Mgr → Prop}
+variable {E : Err → Prop} {P : Mgr → Prop} {R : Mgr → Mgr → Prop}
 
 /-- postcondition shared by the drivers: `P`, `R`, same variables, names permuted by `f` -/
 def MovedBy (m : Mgr) (f : Nat → Nat) (m' : Mgr) : Prop :=
   m'.nvars = m.nvars ∧ m'.roots = m.roots ∧ ∀ j, m'.tbl.l2v[j]? = m.tbl.l2v[f j]?
 
 /-- `_shift` towards the bottom: `dist` swaps starting at `i` -/
-theorem shiftLoop_up (S : SwapOK P R) : ∀ (dist f i : Nat) (sizes : List (Nat × Nat)) (m : Mgr),
+theorem shiftLoop_up (S : SwapOK E P R) : ∀ (dist f i : Nat) (sizes : List (Nat × Nat)) (m : Mgr),
     P m → i + dist < m.nvars → dist ≤ f →
-    OkOrSched (fun _ m' => P m' ∧ R m m' ∧ MovedBy m (shiftPerm i (i + dist)) m')
+    OkOr E (fun _ m' => P m' ∧ R m m' ∧ MovedBy m (shiftPerm i (i + dist)) m')
       (shiftLoop f (i : Int) ((i + dist : Nat) : Int) 1 sizes m) := by
   intro dist
   induction dist with
@@ -90,7 +90,7 @@ theorem shiftLoop_up (S : SwapOK P R) : ∀ (dist f i : Nat) (sizes : List (Nat 
       rw [e1, e2]
       have h2 := ih f' (i + 1) (assocSet (assocSet sizes (i : Int).toNat r.1) ((i + 1 : Nat) : Int).toNat r.2) m1
         hP1 (by rw [he1.nvars]; omega) (by omega)
-      refine OkOrSched.mono ?_ h2
+      refine OkOr.mono ?_ h2
       intro _ m2 ⟨hP2, hR2, hn2, hr2, hl2⟩
       refine ⟨hP2, S.trans _ _ _ hR1 hR2, hn2.trans he1.nvars, hr2.trans he1.roots, ?_⟩
       intro j
@@ -98,9 +98,9 @@ theorem shiftLoop_up (S : SwapOK P R) : ∀ (dist f i : Nat) (sizes : List (Nat 
       congr 2; omega
 
 /-- `_shift` towards the top: `dist` swaps starting at `i + dist` -/
-theorem shiftLoop_down (S : SwapOK P R) : ∀ (dist f i : Nat) (sizes : List (Nat × Nat)) (m : Mgr),
+theorem shiftLoop_down (S : SwapOK E P R) : ∀ (dist f i : Nat) (sizes : List (Nat × Nat)) (m : Mgr),
     P m → i + dist < m.nvars → dist ≤ f →
-    OkOrSched (fun _ m' => P m' ∧ R m m' ∧ MovedBy m (shiftPerm (i + dist) i) m')
+    OkOr E (fun _ m' => P m' ∧ R m m' ∧ MovedBy m (shiftPerm (i + dist) i) m')
       (shiftLoop f ((i + dist : Nat) : Int) (i : Int) (-1) sizes m) := by
   intro dist
   induction dist with
@@ -129,7 +129,7 @@ theorem shiftLoop_down (S : SwapOK P R) : ∀ (dist f i : Nat) (sizes : List (Na
       simp only
       have h2 := ih f' i (assocSet (assocSet sizes (((i + dist : Nat) : Int) + 1).toNat r.1)
         ((i + dist : Nat) : Int).toNat r.2) m1 hP1 (by rw [he1.nvars]; omega) (by omega)
-      refine OkOrSched.mono ?_ h2
+      refine OkOr.mono ?_ h2
       intro _ m2 ⟨hP2, hR2, hn2, hr2, hl2⟩
       refine ⟨hP2, S.trans _ _ _ hR1 hR2, hn2.trans he1.nvars, hr2.trans he1.roots, ?_⟩
       intro j
@@ -138,9 +138,9 @@ theorem shiftLoop_down (S : SwapOK P R) : ∀ (dist f i : Nat) (sizes : List (Na
 
 /-- **`_shift(start, end)`**: succeeds for valid levels; afterwards the variable that was at `start`
 is at `end`, the variables in between moved one level towards `start`, all others stayed. -/
-theorem shift_order (S : SwapOK P R) (m : Mgr) (hP : P m) (s e : Nat) (hs : s < m.nvars)
+theorem shift_order (S : SwapOK E P R) (m : Mgr) (hP : P m) (s e : Nat) (hs : s < m.nvars)
     (he : e < m.nvars) :
-    OkOrSched (fun _ m' => P m' ∧ R m m' ∧ MovedBy m (shiftPerm s e) m') (shift s e m) := by
+    OkOr E (fun _ m' => P m' ∧ R m m' ∧ MovedBy m (shiftPerm s e) m') (shift s e m) := by
   unfold shift
   simp only [M.bind_eq, M.get_eq, hs, he, decide_true, M.assert_true]
   by_cases hlt : s < e
@@ -152,7 +152,7 @@ theorem shift_order (S : SwapOK P R) (m : Mgr) (hP : P m) (s e : Nat) (hs : s < 
     exact shiftLoop_down S d (m.nvars + 1) e [] m hP hs (by omega)
 
 /-- a successful `_shift` (whatever its arguments) keeps `P` and `R` -/
-theorem shift_partial (S : SwapOK P R) (m : Mgr) (hP : P m) (s e : Nat) (r : List (Nat × Nat))
+theorem shift_partial (S : SwapOK E P R) (m : Mgr) (hP : P m) (s e : Nat) (r : List (Nat × Nat))
     (m' : Mgr) (h : shift s e m = (.ok r, m')) : P m' ∧ R m m' ∧ m'.nvars = m.nvars := by
   by_cases hs : s < m.nvars
   · by_cases he : e < m.nvars
@@ -167,7 +167,7 @@ theorem shift_partial (S : SwapOK P R) (m : Mgr) (hP : P m) (s e : Nat) (r : Lis
     simp [M.bind_eq, M.get_eq, hs, M.assert_false] at h
 
 /-- where the variables are after a shift: `level_of_var` follows `_level_to_var` -/
-theorem moved_vars (S : SwapOK P R) {m m' : Mgr} (hP : P m) (hP' : P m') {f g : Nat → Nat}
+theorem moved_vars (S : SwapOK E P R) {m m' : Mgr} (hP : P m) (hP' : P m') {f g : Nat → Nat}
     (hfg : ∀ a, f (g a) = a) (h : MovedBy m f m') {v : String} {i : Nat}
     (hv : m.tbl.vars[v]? = some i) : m'.tbl.vars[v]? = some (g i) := by
   have hV := S.vars m hP
@@ -182,9 +182,9 @@ theorem moved_vars (S : SwapOK P R) {m m' : Mgr} (hP : P m) (hP' : P m') {f g : 
 def Adj (m : Mgr) (x y : String) : Prop :=
   ∃ i j, m.tbl.vars[x]? = some i ∧ m.tbl.vars[y]? = some j ∧ (i + 1 = j ∨ j + 1 = i)
 
-theorem pairStep_spec (S : SwapOK P R) (m : Mgr) (hP : P m) (x y : String) (hxy : x ≠ y)
+theorem pairStep_spec (S : SwapOK E P R) (m : Mgr) (hP : P m) (x y : String) (hxy : x ≠ y)
     (hx : m.tbl.vars.contains x = true) (hy : m.tbl.vars.contains y = true) :
-    OkOrSched (fun _ m' => P m' ∧ R m m' ∧ m'.nvars = m.nvars ∧ Adj m' x y ∧
+    OkOr E (fun _ m' => P m' ∧ R m m' ∧ m'.nvars = m.nvars ∧ Adj m' x y ∧
         (∀ v, m.tbl.vars.contains v = true → m'.tbl.vars.contains v = true) ∧
         (∀ a b, a ≠ x → a ≠ y → b ≠ x → b ≠ y → Adj m a b → Adj m' a b))
       (pairStep x y m) := by
@@ -208,7 +208,7 @@ theorem pairStep_spec (S : SwapOK P R) (m : Mgr) (hP : P m) (x y : String) (hxy 
     have key : ∀ (lo hi : Nat) (vlo vhi : String), m.tbl.vars[vlo]? = some lo →
         m.tbl.vars[vhi]? = some hi → lo + 2 ≤ hi → hi < m.nvars →
         ((vlo = x ∧ vhi = y) ∨ (vlo = y ∧ vhi = x)) →
-        OkOrSched (fun _ m' => P m' ∧ R m m' ∧ m'.nvars = m.nvars ∧ Adj m' x y ∧
+        OkOr E (fun _ m' => P m' ∧ R m m' ∧ m'.nvars = m.nvars ∧ Adj m' x y ∧
             (∀ v, m.tbl.vars.contains v = true → m'.tbl.vars.contains v = true) ∧
             (∀ a b, a ≠ x → a ≠ y → b ≠ x → b ≠ y → Adj m a b → Adj m' a b))
           ((shift lo (hi - 1) >>= fun _ => pure ()) m) := by
@@ -280,9 +280,9 @@ def pairNames : List (String × String) → List String
 
 /-- **`reorder_to_pairs`**: for a pairing of pairwise distinct declared variables the call
 succeeds and afterwards every requested pair is adjacent. -/
-theorem reorderToPairs_adjacent (S : SwapOK P R) : ∀ (pairs : List (String × String)) (m : Mgr),
+theorem reorderToPairs_adjacent (S : SwapOK E P R) : ∀ (pairs : List (String × String)) (m : Mgr),
     P m → (∀ v ∈ pairNames pairs, m.tbl.vars.contains v = true) → (pairNames pairs).Nodup →
-    OkOrSched (fun _ m' => P m' ∧ R m m' ∧ m'.nvars = m.nvars ∧
+    OkOr E (fun _ m' => P m' ∧ R m m' ∧ m'.nvars = m.nvars ∧
         (∀ p ∈ pairs, Adj m' p.1 p.2) ∧
         (∀ v, m.tbl.vars.contains v = true → m'.tbl.vars.contains v = true) ∧
         (∀ a b, a ∉ pairNames pairs → b ∉ pairNames pairs → Adj m a b → Adj m' a b))
@@ -300,10 +300,10 @@ theorem reorderToPairs_adjacent (S : SwapOK P R) : ∀ (pairs : List (String × 
     unfold reorderToPairs
     have h1 := pairStep_spec S m hP x y hxy (hdecl x (by simp [pairNames]))
       (hdecl y (by simp [pairNames]))
-    refine OkOrSched.bind h1 ?_
+    refine OkOr.bind h1 ?_
     intro _ m1 ⟨hP1, hR1, hn1, hadj1, hdec1, hpres1⟩
     have h2 := ih m1 hP1 (fun v hv => hdec1 v (hdecl v (by simp [pairNames, hv]))) hrest
-    refine OkOrSched.mono ?_ h2
+    refine OkOr.mono ?_ h2
     intro _ m2 ⟨hP2, hR2, hn2, hadj2, hdec2, hpres2⟩
     refine ⟨hP2, S.trans _ _ _ hR1 hR2, hn2.trans hn1, ?_, fun v hv => hdec2 v (hdec1 v hv), ?_⟩
     · intro p hp
@@ -324,7 +324,7 @@ theorem levelOfVar_inv {v : String} {m m' : Mgr} {i : Nat} (h : levelOfVar v m =
   obtain ⟨h2, rfl⟩ := M.ofOption_ok_inv h
   exact ⟨rfl, h2⟩
 
-theorem reorderVar_partial (S : SwapOK P R) (m : Mgr) (hP : P m) (var : String) (k : Nat) (m' : Mgr)
+theorem reorderVar_partial (S : SwapOK E P R) (m : Mgr) (hP : P m) (var : String) (k : Nat) (m' : Mgr)
     (h : reorderVar var m = (.ok k, m')) : P m' ∧ R m m' ∧ m'.nvars = m.nvars ∧ m'.len ≤ m.len := by
   unfold reorderVar at h
   obtain ⟨m0, m0', g0, h0⟩ := M.bind_ok_inv h
@@ -364,7 +364,7 @@ theorem reorderVar_partial (S : SwapOK P R) (m : Mgr) (hP : P m) (var : String) 
     exact ⟨hP3, S.trans _ _ _ (S.trans _ _ _ hR1 hR2) hR3, hn3.trans (hn2.trans hn1),
       of_decide_eq_true hle⟩
 
-theorem siftVars_partial (S : SwapOK P R) : ∀ (names : List String) (m m' : Mgr), P m →
+theorem siftVars_partial (S : SwapOK E P R) : ∀ (names : List String) (m m' : Mgr), P m →
     siftVars names m = (.ok (), m') → P m' ∧ R m m' ∧ m'.nvars = m.nvars ∧ m'.len ≤ m.len := by
   intro names
   induction names with
@@ -385,29 +385,7 @@ theorem siftVars_partial (S : SwapOK P R) : ∀ (names : List String) (m m' : Mg
       obtain ⟨hP2, hR2, hn2, hl2⟩ := ih m1 m' hP1 h
       exact ⟨hP2, S.trans _ _ _ hR1 hR2, hn2.trans hn1, Nat.le_trans hl2 hl1⟩
 
-/-! ### sifting: the only possible failures are its own size assertions -/
-
-/-- returned normally with `Q`, or schedule mismatch (model), or `AssertionError` -/
-def OkSchedAssert {α} (Q : α → Mgr → Prop) : Except Err α × Mgr → Prop
-  | (.ok a, m') => Q a m'
-  | (.error e, _) => e = .sched ∨ e = .assertion
-
-theorem OkSchedAssert.of_sched {α} {Q : α → Mgr → Prop} {r : Except Err α × Mgr}
-    (h : OkOrSched Q r) : OkSchedAssert Q r := by
-  obtain ⟨r, m⟩ := r
-  cases r with
-  | ok a => exact h
-  | error e => exact Or.inl h
-
-theorem OkSchedAssert.bind {α β} {x : M α} {f : α → M β} {m : Mgr} {Q : α → Mgr → Prop}
-    {Q' : β → Mgr → Prop} (hx : OkSchedAssert Q (x m))
-    (hf : ∀ a m1, Q a m1 → OkSchedAssert Q' (f a m1)) : OkSchedAssert Q' ((x >>= f) m) := by
-  rw [M.bind_eq]
-  generalize x m = r at hx
-  obtain ⟨r, m1⟩ := r
-  cases r with
-  | ok a => exact hf a m1 hx
-  | error e => exact hx
+/-! ### the `sizes` dict is not empty after a shift between different levels -/
 
 theorem assocSet_ne_nil (l : List (Nat × Nat)) (k v : Nat) : assocSet l k v ≠ [] := by
   unfold assocSet
@@ -467,95 +445,10 @@ theorem argMin_some (l : List (Nat × Nat)) (h : l ≠ []) : ∃ k, argMin l = s
   | nil => exact absurd rfl h
   | cons a rest => obtain ⟨k, v⟩ := a; exact ⟨_, rfl⟩
 
-/-- declared variables stay declared through a shift -/
-theorem shift_outcome (S : SwapOK P R) (m : Mgr) (hP : P m) (s e : Nat) (hs : s < m.nvars) :
-    OkSchedAssert (fun _ m' => P m' ∧ R m m' ∧ m'.nvars = m.nvars ∧
-        ∀ v, m.tbl.vars.contains v = true → m'.tbl.vars.contains v = true) (shift s e m) := by
-  by_cases he : e < m.nvars
-  · refine OkSchedAssert.of_sched (OkOrSched.mono ?_ (shift_order S m hP s e hs he))
-    intro _ m' ⟨hP', hR', hmv⟩
-    refine ⟨hP', hR', hmv.1, ?_⟩
-    intro v hv
-    rw [TreeMap.contains_eq_isSome_getElem?] at hv ⊢
-    obtain ⟨i, hi⟩ := Option.isSome_iff_exists.mp hv
-    rw [moved_vars S hP hP' (shiftPerm_inv s e) hmv hi]; rfl
-  · unfold shift
-    simp only [M.bind_eq, M.get_eq, hs, he, decide_true, decide_false, M.assert_true, M.assert_false]
-    exact Or.inr rfl
-
-/-- **`_reorder_var`, all outcomes**: with at least two variables the call returns normally, or
-the model reports a schedule mismatch, or an `AssertionError` is raised (by one of the two size
-checks, or by `_shift`'s range check on the selected level) — nothing else. -/
-theorem reorderVar_outcome (S : SwapOK P R) (m : Mgr) (hP : P m) (var : String)
-    (hv : m.tbl.vars.contains var = true) (h2 : 2 ≤ m.nvars) :
-    OkSchedAssert (fun _ m' => P m' ∧ R m m' ∧ m'.nvars = m.nvars ∧
-        ∀ v, m.tbl.vars.contains v = true → m'.tbl.vars.contains v = true) (reorderVar var m) := by
-  have hV := S.vars m hP
-  rw [TreeMap.contains_eq_isSome_getElem?] at hv
-  obtain ⟨level, hl⟩ := Option.isSome_iff_exists.mp hv
-  have hlt := hV.lvl_lt hl
-  unfold reorderVar
-  rw [M.bind_ok (M.get_eq m)]
-  have hc : ¬ ((!m.tbl.vars.contains var) = true) := by
-    rw [TreeMap.contains_eq_isSome_getElem?, hl]; simp
-  rw [if_neg hc]
-  have h0 : decide (0 < m.nvars) = true := by simp; omega
-  rw [h0, M.bind_ok (M.assert_true _ _), M.bind_ok (levelOfVar_ok m var level hl)]
-  generalize hse : (if 2 * level ≥ m.nvars - 1 then (m.nvars - 1, 0) else (0, m.nvars - 1)) = se
-  obtain ⟨start, end_⟩ := se
-  have hst : start < m.nvars ∧ end_ < m.nvars ∧ start ≠ end_ := by
-    split at hse <;> cases hse <;> omega
-  dsimp only
-  refine OkSchedAssert.bind (shift_outcome S m hP level start hlt) ?_
-  intro _ m1 ⟨hP1, hR1, hn1, hd1⟩
-  have hshift2 := shift_outcome S m1 hP1 start end_ (by rw [hn1]; exact hst.1)
-  generalize hr2 : shift start end_ m1 = r2 at hshift2
-  obtain ⟨r2, m2⟩ := r2
-  rw [M.bind_eq, hr2]
-  cases r2 with
-  | error e => exact hshift2
-  | ok sizes =>
-    obtain ⟨hP2, hR2, hn2, hd2⟩ := hshift2
-    simp only
-    obtain ⟨k, hk⟩ := argMin_some sizes (shift_sizes_ne start end_ m1 sizes m2 hr2 hst.2.2)
-    rw [hk, M.bind_ok (M.ofOption_some _ _ _)]
-    refine OkSchedAssert.bind (shift_outcome S m2 hP2 end_ k (by rw [hn2, hn1]; exact hst.2.1)) ?_
-    intro _ m3 ⟨hP3, hR3, hn3, hd3⟩
-    rw [M.bind_ok (M.get_eq m3)]
-    by_cases ha : sizes.lookup k = some m3.len
-    · by_cases hb : m3.len ≤ m.len
-      · simp only [ha, hb, decide_true]
-        rw [M.bind_ok (M.assert_true _ _), M.bind_ok (M.assert_true _ _)]
-        exact ⟨hP3, S.trans _ _ _ (S.trans _ _ _ hR1 hR2) hR3, hn3.trans (hn2.trans hn1),
-          fun v hv => hd3 v (hd2 v (hd1 v hv))⟩
-      · simp only [ha, hb, decide_true, decide_false]
-        rw [M.bind_ok (M.assert_true _ _), M.bind_err (M.assert_false _ _)]
-        exact Or.inr rfl
-    · simp only [ha, decide_false]
-      rw [M.bind_err (M.assert_false _ _)]
-      exact Or.inr rfl
-
-theorem siftVars_outcome (S : SwapOK P R) : ∀ (names : List String) (m : Mgr), P m → 2 ≤ m.nvars →
-    (∀ v ∈ names, m.tbl.vars.contains v = true) →
-    OkSchedAssert (fun _ m' => P m' ∧ R m m') (siftVars names m) := by
-  intro names
-  induction names with
-  | nil => intro m hP _ _; exact ⟨hP, S.refl m⟩
-  | cons v rest ih =>
-    intro m hP h2 hd
-    unfold siftVars
-    refine OkSchedAssert.bind (reorderVar_outcome S m hP v (hd v List.mem_cons_self) h2) ?_
-    intro _ m1 ⟨hP1, hR1, hn1, hd1⟩
-    have := ih m1 hP1 (by rw [hn1]; exact h2) (fun w hw => hd1 w (hd w (List.mem_cons_of_mem _ hw)))
-    generalize siftVars rest m1 = r at this
-    obtain ⟨r, m2⟩ := r
-    cases r with
-    | error e => exact this
-    | ok u => exact ⟨this.1, S.trans _ _ _ hR1 this.2⟩
-
 /-- what sifting needs beyond the swap: the initial full collection and the consumption of the
 recorded iteration order keep `P` and `R` -/
-structure SiftEnv (P : Mgr → Prop) (R : Mgr → Mgr → Prop) : Prop extends SwapOK P R where
+structure SiftEnv (E : Err → Prop) (P : Mgr → Prop) (R : Mgr → Mgr → Prop) : Prop
+    extends SwapOK E P R where
   gc : ∀ m, P m → ∃ m', collectGarbage none m = (.ok (), m') ∧ P m' ∧ R m m' ∧
     m'.tbl.vars = m.tbl.vars
   sched : ∀ m s, P m → (m.sched = [] → s = []) → P { m with sched := s } ∧ R m { m with sched := s }
@@ -579,7 +472,7 @@ theorem takeSiftOrder_inv {m m' : Mgr} {names : List String}
 /-- **Sifting, partial correctness**: if `_apply_sifting` returns normally then `P` holds, the
 final state is `R`-related to the initial one, and there are no more nodes than after the
 initial collection (the code's own final check). -/
-theorem applySifting_partial (E : SiftEnv P R) (m m' : Mgr) (hP : P m)
+theorem applySifting_partial (E : SiftEnv E P R) (m m' : Mgr) (hP : P m)
     (h : applySifting m = (.ok (), m')) :
     ∃ mg, collectGarbage none m = (.ok (), mg) ∧ P m' ∧ R m m' ∧ m'.nvars = mg.nvars ∧
       m'.len ≤ mg.len := by
@@ -633,37 +526,6 @@ theorem takeSiftOrder_outcome (m : Mgr) :
         · rw [hc.1.1]; exact TreeMap.length_keys
         · intro v hv; exact hkeys v (hc.1.2 v hv)
       · exact rfl
-
-/-- **Sifting, all outcomes**: with at least two variables `_apply_sifting` returns normally (then
-`P` holds and the final state is `R`-related to the initial one), or the model reports a schedule
-mismatch, or one of the size assertions of the sifting code raises `AssertionError` — no other
-exception is possible. -/
-theorem applySifting_outcome (E : SiftEnv P R) (m : Mgr) (hP : P m) (h2 : 2 ≤ m.nvars) :
-    OkSchedAssert (fun _ m' => P m' ∧ R m m') (applySifting m) := by
-  have S := E.toSwapOK
-  obtain ⟨mg, hrun, hPg, hRg, hvg⟩ := E.gc m hP
-  have hng : mg.nvars = m.nvars := by show mg.tbl.vars.size = _; rw [hvg]; rfl
-  unfold applySifting
-  rw [M.bind_ok hrun, M.bind_ok (M.get_eq mg)]
-  refine OkSchedAssert.bind (OkSchedAssert.of_sched (takeSiftOrder_outcome mg)) ?_
-  rintro names mb ⟨⟨s, rfl, hs0⟩, hlen, hdecl⟩
-  obtain ⟨hPb, hRb⟩ := E.sched mg s hPg hs0
-  have hne : ¬ (names.isEmpty = true) := by
-    intro he
-    have : names = [] := List.isEmpty_iff.mp he
-    subst this
-    have : mg.nvars = mg.tbl.vars.size := rfl
-    simp at hlen
-    omega
-  rw [if_neg hne]
-  refine OkSchedAssert.bind (siftVars_outcome S names _ hPb (by show 2 ≤ mg.nvars; omega) hdecl) ?_
-  intro _ mc ⟨hPc, hRc⟩
-  rw [M.bind_ok (M.get_eq mc)]
-  by_cases hle : mc.len ≤ mg.len
-  · simp only [hle, decide_true]
-    exact ⟨hPc, S.trans _ _ _ hRg (S.trans _ _ _ hRb hRc)⟩
-  · simp only [hle, decide_false]
-    exact Or.inr rfl
 
 end Abs
 
